@@ -177,6 +177,13 @@ def run(prop, tier, replay=None):
                               "tlc": rj.get("tlc"), "scenario": sc})
         else:
             others["%s:%s" % ("+".join(sorted(props)), sig)] += 1
+    network_cov = {}
+    if prop in ("C01", "C02") and tier == "thorough" and not replay:
+        # design-level composition: N guardians on a re-delivering gossip medium with a byzantine member
+        nr = vlib.tlc_must_pass(work, "Network", "MC_Network.cfg", workers=vlib.NCPU, timeout=1800)
+        network_cov = {"cfg": "MC_Network.cfg", "states": nr["distinct"], "transitions": nr["generated"],
+                       "checked": ["NoForgedQuorum", "OnlyTheChainBodyIsPublished", "PublishedMeansQuorum", "QuorumsIntersectInHonest", "EventualVAA (fair)"]}
+        print("TLC Network (composition of nodes, TLC only): %d distinct states, %d transitions" % (nr["distinct"], nr["generated"]))
     gossip_cov = {}
     if prop == "C03" and not replay:
         gossip_cov = run_gossip(work, tier, seed, verdict)
@@ -251,6 +258,8 @@ def run(prop, tier, replay=None):
         "known_findings_matched": getattr(verdict, "n_known", 0),
         "exhaustive": False,
     }
+    if network_cov:
+        cov["network_composition_model"] = network_cov
     if gossip_cov:
         cov["gossip_verifiers"] = gossip_cov
         cov["states"] += gossip_cov["states"]
